@@ -27,7 +27,13 @@ pub fn check(ctx: &Ctx, t: &mut Tape<'_>, r: &mut Report) -> CheckResult {
     let off = if t.chance(128) { t.idx(bs) } else { 0 };
     let p = Pos { blk, off };
     let reach = gen_reach(t, p, bs);
-    let len = gen_msg_len(t, bs, 6);
+    let mut len = gen_msg_len(t, bs, 6);
+    // the request must stay inside the keystream (what happens at its end is C11's business)
+    let lim: u128 = if w == 128 { u128::MAX } else { (1u128 << w) - 1 };
+    let room = (lim - blk).saturating_mul(bs as u128).saturating_sub(off as u128);
+    if (len as u128) > room {
+        len = room as usize;
+    }
     let data = tape::gen_bytes(t, len);
     let cuts = gen_cuts(t, len, bs, 4);
     let kinds = gen_apply_kinds(t, 4);
